@@ -358,6 +358,7 @@ def run(ctx, extra_cases=()):
     for c in cases[len(extra_cases) + len(corpus_cases()):][:3] + cases[-2:]:
         ctx.sample({"tag": c.tag, "n": c.n, "mask": c.mask, "A": [c08lib.b2d(u) for u in c.A][:16]})
     ctx.log("total %.1fs" % (time.time() - t0))
+    __import__("vglue").glue(ctx, "C08")   # glue around the modelled core: float / long double builds of the three families (differential tests, tools/vglue.py); linalg.h has no C++ members (scanned on every run)
 
 
 def replay(ctx, path):
@@ -389,11 +390,19 @@ META = {
             "|dT| <= gamma_k |T|, |db| = O(n) eta; the factorisations' own backward error (|PA - LU| <= gamma_n |L||U| etc., "
             "hence solve/inverse against the ORIGINAL A) stays measured, not proved. Tie: the same "
             "polymorphic term at PrimFloat (vm_compute) vs the C bit for bit on all 34 routines incl. lndet (libm log logged "
-            "via --wrap and supplied to the model).",
+            "via --wrap and supplied to the model). Differential test, not a theorem: the glue run (tools/vglue.py, "
+            "harness/glue/cfg_C08.c) builds the three families for a_real = float, double and long double with ASan/UBSan and runs "
+            "matrices constructed from dyadic factors (A = P^T L U, L D L^T, L L^T, orders 0..6, every intermediate of the documented "
+            "algorithm exact in binary32 - checked with exact fractions) against exactly those factors, the exact rational solutions, "
+            "inverses and determinants, exactly singular / non-positive inputs against the failure code, pivots on either side of "
+            "A_REAL_MIN of each configuration, and full-mantissa matrices against the exact value within the rounding allowance of the "
+            "configuration; every array is an exactly-sized pool block between guard bytes.",
     "note": "Trusted: Coq kernel/vm_compute with primitive floats and ints; real-number axioms listed by Print Assumptions; "
             "the 'same term, different NumOps record' argument between R and binary64; running-pointer walks modelled by "
             "closed-form cell indices, a_uint as nat; hand-written model tied bit for bit on generated matrices (orders 1-12 "
             "quick, 1-24 thorough) only. On finite inputs whose intermediates overflow the C reports success with inf/NaN "
-            "factors (x < A_REAL_MIN is false for NaN): treated as outside the property's rounding model and counted in the evidence.",
+            "factors (x < A_REAL_MIN is false for NaN): treated as outside the property's rounding model and counted in the evidence. "
+            "The float and long double builds are not modelled in Rocq: they are covered by the glue run only (generated exact and "
+            "well-conditioned matrices; lndet there is compared with a binary64 reference within a float-suited tolerance).",
     "technique": "Rocq proof over R (loop invariants P_k A = L_k R_k, permutation parity, triangular solves) + the LDL^T/Cholesky families and the permutation-free PLU routines re-translated on every run (orders 0..4, loops unrolled, callees inlined) and proved equal to the model for all entries + bit-exact primitive-float model vs C correspondence + exact-rational residual oracle",
 }
